@@ -288,7 +288,9 @@ let () =
                         | Some (s', e'), Some cc ->
                           let built = int_of_n (Model.count_reach s' e') in
                           stat "nc_canonical_nodes" built;
-                          if not (Model.wf_full_b s') then
+                          if not (Model.bool_kind_ok_b sn) then
+                            fail p.pstep "C03" "corr" "bool_kind_ok_b false on the snapshot (hypothesis of C03_node_count_canonical)"
+                          else if not (Model.bool_kind_ok_b s') then
                             fail p.pstep "C03" "corr" "the diagram built from the value table is not well-formed"
                           else if built <> int_of_string k then
                             fail p.pstep "C03" "prop"
